@@ -27,9 +27,9 @@ from ndn.security.validator.cascade_validator import MemoryKeyStorage, EmptyKeyS
 
 LEVEL = 'fault_enumeration'
 
-RULE = ('certificate hierarchies of depth 1..4 (ECDSA P-256 and RSA-2048 keys) under generated level schemas; one deviation '
+RULE = ('certificate hierarchies of depth 1..4 (ECDSA P-256 / P-384 / P-521 and RSA-2048 keys) under generated level schemas; one deviation '
         'per case at every link {none, wrong issuer level, forged signature, substituted key, certificate not retrievable '
-        '(timeout / Nack), unsigned element, missing key locator, key-locator loop, foreign hierarchy}; anchors that do not '
+        '(timeout / Nack), unsigned element, missing key locator, key-locator loop, foreign hierarchy, signer certificate present only in the own keychain of the application}; anchors that do not '
         'match the roots of trust or are not self-signed; histories of 2-4 validations over 2-3 validator instances (default '
         'and explicit storages) in every order; distinct = (depth, key types, deviation, link) resp. (history order); '
         'non-trivial = every case; histories on one instance: a key locator naming a never-issued certificate of an already '
@@ -59,7 +59,7 @@ class Key:
             self.der = pkts.rsa_key(rng.randrange(3))
             self.pub = RSA.import_key(self.der).public_key().export_key('DER')
         else:
-            k = ECC.generate(curve='P-256')
+            k = ECC.generate(curve={'ec': 'P-256', 'ec384': 'P-384', 'ec521': 'P-521'}[kind])
             self.der = k.export_key(format='DER')
             self.pub = k.public_key().export_key(format='DER')
 
@@ -78,13 +78,13 @@ class Hierarchy:
         self.cert_names = []
         self.cert_wires = []
         kid = tag.encode()
-        k0 = Key(rng, rng.choice(['ec', 'ec', 'rsa']), SITE + [C(b'KEY'), C(b'k0' + kid)])
+        k0 = Key(rng, rng.choice(['ec', 'ec', 'rsa', 'ec384', 'ec521']), SITE + [C(b'KEY'), C(b'k0' + kid)])
         name, wire = self_sign(k0.name, k0.pub, k0.signer(k0.name))
         self.keys.append(k0)
         self.cert_names.append([bytes(c) for c in name])
         self.cert_wires.append(bytes(wire))
         for lvl in range(1, depth + 1):
-            k = Key(rng, rng.choice(['ec', 'ec', 'ec', 'rsa']), SITE + [C(b'l%d' % lvl), C(b'id' + kid), C(b'KEY'), C(b'k%d' % lvl + kid)])
+            k = Key(rng, rng.choice(['ec', 'ec', 'ec', 'rsa', 'ec384', 'ec521']), SITE + [C(b'l%d' % lvl), C(b'id' + kid), C(b'KEY'), C(b'k%d' % lvl + kid)])
             self.issue(lvl, k, lvl - 1)
 
     def issue(self, lvl, key, issuer_lvl, replace=False, locator=None, signer=None):
@@ -113,7 +113,23 @@ class Hierarchy:
 
 
 DEVIATIONS = ['none', 'none', 'missing-signature-value', 'signature-type-mismatch', 'mismatched-identity', 'hmac-with-public-key', 'wrong-issuer-level', 'forged-signature', 'substituted-key', 'cert-timeout', 'cert-nack', 'unsigned',
-              'no-key-locator', 'locator-loop', 'foreign-hierarchy', 'digest-signed']
+              'no-key-locator', 'locator-loop', 'foreign-hierarchy', 'digest-signed', 'keychain-holds-unanchored-cert']
+_KC = {}
+
+
+def local_keychain():
+    """One on-disk keychain (SQLite PIB + file TPM) per process, handed to the application of some cases: what the application's
+    own keychain holds is no input of the verdict."""
+    if 'kc' not in _KC:
+        import atexit, os, shutil, tempfile
+        from ndn.security.keychain.keychain_sqlite3 import KeychainSqlite3
+        from ndn.security.tpm.tpm_file import TpmFile
+        root = tempfile.mkdtemp(prefix='nvf-c14-kc-')
+        atexit.register(shutil.rmtree, root, True)
+        os.makedirs(os.path.join(root, 'tpm'))
+        KeychainSqlite3.initialize(os.path.join(root, 'pib.db'), 'tpm-file', os.path.join(root, 'tpm'))
+        _KC['kc'] = KeychainSqlite3(os.path.join(root, 'pib.db'), TpmFile(os.path.join(root, 'tpm')))
+    return _KC['kc']
 
 
 def flip_sig(wire):
@@ -246,6 +262,19 @@ def build_case(rng, depth, dev, link=None):
         k = H.keys[lvl]
         name, wire = derive_cert(k.name, 'iss', k.pub, k.signer(H.cert_names[lvl]), START, 86400 * 3650)
         H.alias = {tuple(H.cert_names[lvl]): bytes(wire)}
+    elif dev == 'keychain-holds-unanchored-cert':
+        # the packet is signed by a key of the application's OWN keychain whose (self-signed) certificate bears a name the schema
+        # allows as signer - but no chain leads from it to the anchor; the certificate is served on request or not at all
+        valid = False
+        link = depth + 1
+        kc = local_keychain()
+        idname = SITE + [C(b'l%d' % depth), H.ident()]
+        kc.touch_identity(idname)
+        own = kc[idname].default_key().default_cert()
+        data = bytes(make_data(H.data_name(suffix), MetaInfo(), b'own', kc.get_signer({'identity': idname})))
+        if rng.random() < 0.5:
+            H.extra = {tuple(bytes(c) for c in own.name): bytes(own.data)}
+        H.keychain = kc
     elif dev == 'foreign-hierarchy':
         valid = False
         H2 = Hierarchy(rng, depth, '%04x' % rng.getrandbits(16))
@@ -312,7 +341,8 @@ def check_single(ctx, rng):
 
         async def main(S):
             face = RecFace()
-            the_app = appv1.NDNApp(face=face, keychain=KeychainDigest())
+            # the application's own keychain: the digest-only one, or an on-disk store (holding unrelated / unanchored identities)
+            the_app = appv1.NDNApp(face=face, keychain=getattr(H, 'keychain', None) or (local_keychain() if i % 5 == 4 else KeychainDigest()))
             main_task = asyncio.ensure_future(the_app.main_loop())
             await asyncio.sleep(0)
             srv = CertServer(face)
